@@ -72,7 +72,7 @@ def replay(case, ctx):
 
 
 def plan(tier, seed):
-    n, per = (16, 500) if tier == "quick" else (16, 50000)
+    n, per = (16, 3000) if tier == "quick" else (16, 50000)
     sh = []
     for k in range(n):
         s = {"kind": "pv", "n": per}
